@@ -75,6 +75,9 @@ def parse(out, ncalls):
     return res if pos == len(out) else None
 
 
+ALL_BITS = F_LOOP | F_C_TL | F_C_START | F_C_STOP | F_COPEN | F_SOPEN | F_ENABLED | F_LOCKED | F_ACQ
+
+
 def predicate(c, out):
     """The property, on the implementation's output.  A device view is replayed from the effects
     (written here from the property text, independently of the model)."""
@@ -83,9 +86,20 @@ def predicate(c, out):
         return "no output (harness died)"
     if out == [2]:
         return "the harness itself panicked outside a camera call"
+    if c.kind == "cam16":
+        rs = parse_e2e(out, len(calls))
+        if rs is None:
+            return "output does not have the expected shape"
+        return judge(calls, plan, rs, F_LOOP | F_ENABLED | F_LOCKED)
     rs = parse(out, len(calls))
     if rs is None:
         return "output does not have the expected shape"
+    return judge(calls, plan, rs, ALL_BITS)
+
+
+def judge(calls, plan, rs, bits):
+    """bits: the state bits the harness reports (the end-to-end harness sees the device memory and
+    the streaming flag only; there nops is None: no failure is planned)."""
     copen = sopen = enabled = locked = acq = alive = False
     loops = 0
     any_failure = False          # a planned failure that was reached
@@ -101,12 +115,12 @@ def predicate(c, out):
             good = False
         # --- starting while streaming / without a description
         if is_start and flag_before:
-            if r["res"] != 12 or r["effs"] or r["nops"] != 0:
+            if r["res"] != 12 or r["effs"] or r["nops"] not in (0, None):
                 return where + ": start while streaming must fail with InStreaming and do nothing"
         elif is_start and not ctxt:
             if r["res"] != 13:
                 return where + ": start without a loaded description must fail with GenApiContextMissing"
-            if r["effs"] or r["nops"] != 0:
+            if r["effs"] or r["nops"] not in (0, None):
                 return where + ": start without a loaded description must not touch the device"
         # --- the effects, in order
         for e in r["effs"]:
@@ -170,12 +184,12 @@ def predicate(c, out):
         for bit, v, name in ((F_COPEN, copen, "control handle opened"), (F_SOPEN, sopen, "stream handle opened"),
                              (F_ENABLED, enabled, "stream enabled"), (F_LOCKED, locked, "TLParamsLocked"),
                              (F_ACQ, acq, "acquiring")):
-            if bool(f & bit) != v:
+            if bits & bit and bool(f & bit) != v:
                 return where + ": device state '%s' differs from the effects that happened" % name
         ctxt = bool(f & F_CTXT)
         # --- failure: error returned, later steps not performed
         fails = sorted(j for (ci, j) in plan if ci == i)
-        reached = [j for j in fails if j < r["nops"]]
+        reached = [j for j in fails if r["nops"] is not None and j < r["nops"]]
         if reached:
             any_failure = True
             j = reached[0]
@@ -198,13 +212,107 @@ def predicate(c, out):
         if call == CLOSE and good and not any_failure:
             if r["res"] != 0:
                 return where + ": close failed although no operation failed"
-            dirty = f & (F_LOOP | F_C_TL | F_C_START | F_C_STOP | F_COPEN | F_SOPEN | F_ENABLED | F_LOCKED | F_ACQ)
+            dirty = f & bits
             if dirty:
                 return where + ": after close (no failure) state bits %d remain (1 loop, 4/8/16 cache, 32/64 handles open, 128 stream enabled, 256 TLParamsLocked, 512 acquiring)" % dirty
     return None
 
 
+def parse_e2e(out, ncalls):
+    """output of rust/h_u3v `cam16` -> the same records; LoopStart / LoopStop are not device-memory
+    writes: they are inferred from the streaming flag (a loop that appears during a call is put after
+    the call's writes, one that disappears before them — their position inside the call is not observed)."""
+    if not out or out[0] != 0:
+        return None
+    pos, res, flag = 1, [], 0
+    for _ in range(ncalls):
+        if pos + 2 > len(out):
+            return None
+        r, k = out[pos:pos + 2]
+        pos += 2
+        effs = [(x,) for x in out[pos:pos + k]]
+        pos += k
+        if pos + 2 > len(out):
+            return None
+        val, flags = out[pos:pos + 2]
+        pos += 2
+        if flags & F_LOOP and not flag:
+            effs = effs + [(E_LSTART,)]
+        if flag and not flags & F_LOOP:
+            effs = [(E_LSTOP,)] + effs
+        flag = flags & F_LOOP
+        res.append({"res": r, "failed": 0, "nops": None, "effs": effs, "val": val, "flags": flags})
+    return res if pos == len(out) else None
+
+
+E2E_SIRM, E2E_REGS, E2E_TAB, E2E_XML = 0x20000, 0x40000, 0x30000, 0x50000
+
+
+def e2e_world_tokens():
+    """A conforming U3V device for rust/shim: bootstrap registers, SIRM, a manifest with one uncompressed
+    GenApi file defining TLParamsLocked / AcquisitionStart / AcquisitionStop over three registers."""
+    import hashlib
+    import u3vworld
+    from xmlrender import HEADER
+
+    def reg(name, addr):
+        return ('<IntReg Name="%s"><Address>%d</Address><Length>4</Length><AccessMode>RW</AccessMode>'
+                '<pPort>Device</pPort><Sign>Unsigned</Sign><Endianess>LittleEndian</Endianess></IntReg>' % (name, addr))
+    xml = (HEADER
+           + '<Integer Name="TLParamsLocked"><pValue>TLParamsLockedReg</pValue></Integer>'
+           + '<Command Name="AcquisitionStart"><pValue>AcquisitionStartReg</pValue><CommandValue>1</CommandValue></Command>'
+           + '<Command Name="AcquisitionStop"><pValue>AcquisitionStopReg</pValue><CommandValue>1</CommandValue></Command>'
+           + reg("TLParamsLockedReg", E2E_REGS) + reg("AcquisitionStartReg", E2E_REGS + 4)
+           + reg("AcquisitionStopReg", E2E_REGS + 8) + '<Port Name="Device"></Port></RegisterDescription>').encode()
+    w = u3vworld.std_world(sirm=E2E_SIRM, manifest=E2E_TAB)
+    w.poke(E2E_SIRM + 0x00, 4, 2 << 24)        # SI_INFO: payload size alignment 2^2
+    w.poke(E2E_SIRM + 0x08, 8, 4096)           # required payload size
+    w.poke(E2E_SIRM + 0x10, 4, 52)             # required leader size
+    w.poke(E2E_SIRM + 0x14, 4, 32)             # required trailer size
+    le = u3vworld.le
+    entry = (le((1 << 24) | (0 << 16) | 0, 4) + le((1 << 24) | (1 << 16), 4) + le(E2E_XML, 8) + le(len(xml), 8)
+             + hashlib.sha1(xml).digest() + bytes(20))
+    w.seg(E2E_TAB, le(1, 8) + entry)
+    w.seg(E2E_XML, xml + bytes(16))
+    w.seg(E2E_REGS, bytes(0x100))
+    return list(w.toks)
+
+
+def mk_e2e(wt, calls):
+    toks = wt + [40, E2E_SIRM, E2E_REGS, E2E_REGS + 4, E2E_REGS + 8, len(calls)] + list(calls)
+    return Case("cam16", toks, {"calls": list(calls), "plan": []}, term="cam_case true %s []" % zlist(calls))
+
+
+E2E_EFFECTS = {E_ENABLE, E_TL1, E_TL0, E_ASTART, E_ASTOP, E_DISABLE}
+
+
+def e2e_view(model_out, ncalls):
+    """the part of the model's output the end-to-end harness can observe, in its format"""
+    rs = parse(model_out, ncalls)
+    out = [0]
+    for r in rs:
+        effs = [e[0] for e in r["effs"] if e[0] in E2E_EFFECTS]
+        out += [r["res"], len(effs)] + effs + [r["val"], r["flags"] & (F_LOOP | F_CTXT | F_COPEN | F_ENABLED | F_LOCKED)]
+    return out
+
+
+def e2e_sessions(depth):
+    mid = [[]]
+    allm = [[]]
+    for _ in range(depth):
+        mid = [m + [a] for m in mid for a in (LOAD, START, STOP, PARAMS, OPEN)]
+        allm.extend(mid)
+    out = [[OPEN] + m + [CLOSE] for m in allm]
+    out += [[OPEN] + m + [CLOSE, OPEN, LOAD, START, PARAMS, CLOSE] for m in allm if len(m) <= 2]
+    out += [[OPEN] + m for m in allm if len(m) == depth]          # sessions that end while streaming / open
+    out += [[OPEN, LOAD, 11, STOP, CLOSE], [OPEN, LOAD, 10, CLOSE], [OPEN, LOAD, START, 10, STOP, CLOSE]]
+    return out
+
+
 def nontrivial(c, out):
+    if c.kind == "cam16":
+        rs = parse_e2e(out, len(c.meta["calls"])) if out else None
+        return bool(rs) and any((E_LSTART,) in r["effs"] for r in rs)
     rs = parse(out, len(c.meta["calls"])) if out else None
     return bool(rs) and any((E_LSTART,) in r["effs"] for r in rs)
 
@@ -271,18 +379,23 @@ RULE = ("exhaustive: every session over {open, load_context, start_streaming(3),
         "DefaultGenApiCtxt> vs Gallina model (vm_compute): per-call result class, failed operation, operations attempted, "
         "effect trace, value read, state after every call (streaming flag, context, register cache, device state); "
         "independent Python predicate = the acquisition protocol replayed over the implementation's effect trace; "
-        "non-trivial = a receive loop is started")
+        "end-to-end: failure-free sessions open . {load, start, stop, params, open}^<=%d . close (and re-open tails) on the real "
+        "Camera<ControlHandle, StreamHandle> over the scripted U3V device of rust/shim (real manifest / XML fetch, SIRM "
+        "programming, streaming-loop thread): result classes, protocol-relevant device-memory writes, value read, streaming flag, "
+        "SI_CONTROL / TLParamsLocked in device memory vs the same model; non-trivial = a receive loop is started")
 
 
 def main():
     ck = Check("C16")
     quick = ck.tier == "quick"
     depth = 5 if quick else 6
-    ck.rule = RULE % (depth, "" if quick else "; a seeded sample of depth-7 sessions, failure-free and with sampled failure points")
+    ck.rule = RULE % (depth, "" if quick else "; a seeded sample of depth-7 sessions, failure-free and with sampled failure points",
+                      3 if quick else 5)
     ck.trusted += [
         "rust/h_camera: the recording fakes (FakeCtrl / FakeStrm: a planned failure has no effect; the loop is a flag, no thread), "
         "the GenApi descriptions it serves, its classification of CameleonError",
-        "camera.rs is exercised over the fakes; ControlHandle / StreamHandle themselves are the subject of C06, C07, C12, C15",
+        "camera.rs is exercised over the fakes (all failure plans) and, failure-free, over the real ControlHandle / StreamHandle on the "
+        "scripted device of rust/shim (rust/h_u3v cam16); the handles themselves are the subject of C06, C07, C12, C15",
     ]
     ck.prove()
     ck.phase("prove")
@@ -298,10 +411,23 @@ def main():
         if r.get("kind") != "case":
             print(json.dumps(r, indent=1)[:4000])
             sys.exit(0)
-        cases = [case_from_line(r["case"])]
-        impl = ck.run_impl(binary, [c.line for c in cases])
-        model = ck.run_model_terms(["Camera"], [c.term for c in cases])
-        print("case     :", cases[0].line)
+        if r.get("ckind") == "cam16":
+            wt = e2e_world_tokens()
+            calls = [int(x) for x in r["case"].split()[1:][len(wt) + 6:]]
+            c = mk_e2e(wt, calls)
+            ubin, ulog = ck.cargo_build("h_u3v")
+            if ubin is None:
+                print("rust/h_u3v does not build:\n" + ulog[-2000:])
+                sys.exit(2)
+            impl = ck.run_impl(ubin, [c.line])
+            model = [e2e_view(m, len(calls)) for m in ck.run_model_terms(["Camera"], [c.term])]
+            cases = [c]
+        else:
+            cases = [case_from_line(r["case"])]
+            impl = ck.run_impl(binary, [c.line for c in cases])
+            model = ck.run_model_terms(["Camera"], [c.term for c in cases])
+        print("case     :", cases[0].line[:300])
+        print("calls    :", cases[0].meta["calls"], "plan:", cases[0].meta["plan"])
         print("impl     :", impl[0])
         print("model    :", model[0])
         print("predicate:", predicate(cases[0], impl[0]) or "holds")
@@ -339,6 +465,22 @@ def main():
     nb = len(base) + len(fcases)
     ck.compare(cases[:nb], impl[:nb], model[:nb], predicate, nontrivial, family="exhaustive depth<=%d x single failure" % depth)
     ck.compare(cases[nb:], impl[nb:], model[nb:], predicate, nontrivial, family="deep / variants / random multi-failure")
+    # end-to-end: the same sessions (failure-free, handles opened first) on Camera<ControlHandle, StreamHandle>
+    # over the scripted U3V device of rust/shim
+    ubin, ulog = ck.cargo_build("h_u3v")
+    if ubin is None:
+        path = ck.write_replay({"kind": "build", "property": "C16", "unchecked": "end-to-end correspondence via rust/h_u3v",
+                                "log": ulog[-6000:]})
+        ck.violations.append((path, True, "harness rust/h_u3v does not build against the repository: end-to-end correspondence cannot be established"))
+    else:
+        wt = e2e_world_tokens()
+        ecases = [mk_e2e(wt, s) for s in e2e_sessions(3 if quick else 5)]
+        eimpl = ck.run_impl(ubin, [c.line for c in ecases], jobs=8)
+        emodel = ck.run_model_terms(["Camera"], [c.term for c in ecases], per_eval=400)
+        eview = [e2e_view(m, len(c.meta["calls"])) for c, m in zip(ecases, emodel)]
+        ck.compare(ecases, eimpl, eview, predicate, nontrivial,
+                   family="end-to-end Camera<ControlHandle, StreamHandle> over the scripted device")
+        ck.phase("end-to-end")
     kinds = {}
     for c, o in zip(cases, impl):
         rs = parse(o, len(c.meta["calls"])) if o else None
